@@ -8,9 +8,7 @@ freshly rebuilt circuit (cache coherence).  See DESIGN.md section 3 (E5) and sec
 Violation classes: C05-OVERLAP, C05-LOST, C05-DUP, C05-ATOMIC, C05-ORDER, C05-PLACE, C05-RETURN,
 C05-STALE:<query>[@iter-raises], C05-PLACEMENT-CACHE, C05-ALIAS, C05-NORAISE (a call the
 documentation says fails returned normally), C05-SUT-EXCEPTION (runner).  Fingerprints are
-`<class>@<fault kind>:<method that last created/edited the circuit>`; behaviours of the
-implementation that depart from the letter of the documentation in a way the model can name
-(engines.circuit_model.VARIANTS) get `C05-PLACE@variant:<names>`.  A violation whose
+`<class>@<fault kind>:<method that last created/edited the circuit>`.  A violation whose
 fingerprint is listed in known_findings.json is recorded (class suffix `~known`), the circuit
 concerned is rebuilt / the real layout adopted, and the history continues; the first such
 violation is raised at the end of the run so that the runner counts it as a known finding.
@@ -779,22 +777,15 @@ class Run:
                 exp, p = M.insert_moment(L, index, it)
                 rlo = rhi = p + 1
             else:
-                exp, p, _ = M.insert_single(L, index, it, strategy)
+                opts = M.insert_single_options(L, index, it, strategy)
+                exp, p, _ = opts[0]
+                for lay, pp, _ in opts:
+                    if M.same_layout(N, lay):
+                        exp, p = lay, pp
+                        break
                 if strategy in (M.EARLIEST, M.INLINE) and k > 0 and not M.qconf_moment(it, L[k - 1]) \
                         and M.conf_moment(it, L[k - 1]):
                     self.ctx.probe("key-conflict-forces-new-moment")
-                if not M.same_layout(N, exp):
-                    pr = M.conservation(M.uids_of(exp), M.uids_of(N))
-                    if pr is None and strategy == M.EARLIEST:
-                        exp2, p2, _ = M.insert_single(L, index, it, strategy, frozenset([M.V_EARLIEST_JOIN]))
-                        if M.same_layout(N, exp2):
-                            self.flag("C05-PLACE",
-                                      f"EARLIEST insert of {it.describe()} at {k} into {M.show(L)}: the moment before "
-                                      f"the insert location conflicts (or the index is 0), so the strategy's text "
-                                      f"says 'inserted into a new moment at the desired location' "
-                                      f"({M.show(exp)}), but it was added to the existing moment at the insert "
-                                      f"location ({M.show(N)})", fp="C05-PLACE@variant:" + M.V_EARLIEST_JOIN)
-                            exp, p = exp2, p2
                 rlo, rhi = p + 1, max(k, p + 1)
             if not M.same_layout(N, exp):
                 self.mismatch(exp, N)
@@ -811,9 +802,8 @@ class Run:
                 probs = M.check_insert_multi(L, N, index, items, strategy, ret)
                 if probs:
                     cls, msg = probs[0]
-                    fp = "C05-RETURN@empty-insert-into-empty-circuit" if (cls == "C05-RETURN" and not items and not L) else None
                     self.flag(cls, f"{strategy} insert of [{self.desc_items(items)}] at {k} into {M.show(L)} gave "
-                                   f"{M.show(N)}: {msg}", fp)
+                                   f"{M.show(N)}: {msg}")
         if lv is not None:
             lv.m = N
         return N
@@ -998,20 +988,9 @@ class Run:
                                        f"{M.show(L)} gave {M.show(N)}: {probs[0][1]}")
         else:
             flat = [(i, items[0]) for i, items in entries]
-            exp = M.batch_insert_exact(L, flat)
-            if not M.same_layout(N, exp):
-                hit = None
-                for vs in ([M.V_EARLIEST_JOIN], [M.V_BATCH_SHIFT], [M.V_EARLIEST_JOIN, M.V_BATCH_SHIFT]):
-                    if M.same_layout(N, M.batch_insert_exact(L, flat, frozenset(vs))):
-                        hit = vs
-                        break
-                desc = [(i, self.desc_items([it])) for i, it in flat]
-                if hit is not None:
-                    self.flag("C05-PLACE", f"batch_insert({desc}) on {M.show(L)}: the documented rules give "
-                                           f"{M.show(exp)}, the circuit is {M.show(N)}, which is what one gets with "
-                                           f"the deviation(s) {hit}", fp="C05-PLACE@variant:" + "+".join(hit))
-                else:
-                    self.mismatch(exp, N)
+            opts = M.batch_insert_options(L, flat)
+            if not any(M.same_layout(N, o) for o in opts):
+                self.mismatch(opts[0], N)
         lv.m = N
         self.note_mut(t, "I")
 
@@ -1674,7 +1653,7 @@ class C05(Check):
         "real": "cirq.Circuit, cirq.FrozenCircuit, cirq.Moment, insert strategies, op_tree flattening, all queries",
         "stub": "nothing is stubbed; the reference is engines/circuit_model.py (list of lists of abstract operations)",
     }
-    tiers = {"quick": {"runs": 9000, "wall": 200}, "thorough": {"runs": 130000, "wall": 1500}}
+    tiers = {"quick": {"runs": 9000, "wall": 300}, "thorough": {"runs": 130000, "wall": 1800}}
     per_run_timeout = 60
     expected_probes = ["query-between-two-appends", "append-after-mid-circuit-insert", "failed-inline-batch",
                        "clear-with-failing-index-iterator", "unfreeze-copy-false", "negative-index-below-minus-len",
